@@ -28,6 +28,12 @@ char *MN(strtok_r)(char *s, const char *delim, char **save) {
   return tok;
 }
 
+/* strtok: the non-reentrant variant keeps its position in a static object - exactly what makes it
+ * unusable here (C18, C06).  Modelled so that a change from strtok_r to strtok is a frame violation
+ * (write to an object outside every assigns clause), not an "undefined function". */
+static char *m_strtok_save;
+char *MN(strtok)(char *s, const char *delim) { return MN(strtok_r)(s, delim, &m_strtok_save); }
+
 #ifdef LIBC_SAFETY_ABSTRACTION
 /* Safety-level abstractions (sound over-approximations for memory-safety proofs):
  *  strstr: exact when the needle matches at the start (the only use: strstr(p, kw) == p),
